@@ -355,6 +355,29 @@ class _CanonPos(ast.NodeTransformer):
         return node
 
 
+class _CanonCmp(ast.NodeTransformer):
+    """Canonical orientation of single comparisons: `a > b` -> `b < a`, `a >= b` -> `b <= a`; for == / != a constant
+    operand goes to the right, otherwise the operands are ordered by their text."""
+
+    def visit_Compare(self, node: ast.Compare):
+        self.generic_visit(node)
+        if len(node.ops) != 1:
+            return node
+        op, a, b = node.ops[0], node.left, node.comparators[0]
+        swap = None
+        if isinstance(op, ast.Gt):
+            swap = ast.Lt()
+        elif isinstance(op, ast.GtE):
+            swap = ast.LtE()
+        elif isinstance(op, (ast.Eq, ast.NotEq)):
+            ca, cb = isinstance(a, ast.Constant), isinstance(b, ast.Constant)
+            if (ca and not cb) or (ca == cb and ast.dump(a) > ast.dump(b)):
+                swap = type(op)()
+        if swap is None:
+            return node
+        return ast.copy_location(ast.Compare(left=b, ops=[swap], comparators=[a]), node)
+
+
 class _CanonNeg(ast.NodeTransformer):
     """Semantics-preserving canonical form for negated tests, applied to every module before analysis, so that the
     rules need to know one spelling only:
@@ -418,6 +441,7 @@ class Repo:
                 raise AnalysisError(f"cannot parse {rel}: {e}")
             if os.environ.get("VERIF_NO_CANON") != "1":
                 tree = ast.fix_missing_locations(_CanonNeg().visit(tree))
+                tree = ast.fix_missing_locations(_CanonCmp().visit(tree))
                 tree = ast.fix_missing_locations(_CanonPos(tree).visit(tree))
                 tree = ast.fix_missing_locations(_CanonRet().visit(tree))
             mod = ModuleInfo(name=name, path=path, relpath=str(rel), tree=tree, source=src)
@@ -863,6 +887,17 @@ def kw(call: ast.Call, name: str) -> Optional[ast.expr]:
     for k in call.keywords:
         if k.arg == name:
             return k.value
+    return None
+
+
+def ordered_compare(c: ast.AST):
+    """(lo, strict, hi) for a single comparison `lo < hi` / `lo <= hi` written in either orientation; None otherwise"""
+    if isinstance(c, ast.Compare) and len(c.ops) == 1:
+        op, a, b = c.ops[0], c.left, c.comparators[0]
+        if isinstance(op, (ast.Lt, ast.LtE)):
+            return a, isinstance(op, ast.Lt), b
+        if isinstance(op, (ast.Gt, ast.GtE)):
+            return b, isinstance(op, ast.Gt), a
     return None
 
 
